@@ -114,7 +114,9 @@ def check_identity_srepr(eqs):
         num = sp.expand(num)
         if num != 0:
             # try harder (transcendental rewriting)
-            d2 = sp.simplify(d)
+            d2 = exp_normalise(ea - eb)
+            if d2 != 0:
+                d2 = sp.simplify(d)
             if d2 != 0:
                 pt = refuting_point(d)
                 if pt is not None:
@@ -194,3 +196,36 @@ def ineq_exprs(goal, defs=()):
             raise ValueError("ineq_exprs: unsupported connective %s" % g.decl())
     rec(goal)
     return out
+
+
+def exp_normalise(d):
+    """Rewrite hyperbolic functions through exp, name Z = exp(g) for a common base argument g (all exp
+    arguments are rational multiples of g), expand logarithms (symbols positive) and simplify."""
+    try:
+        pos = {s_: sp.Symbol(s_.name, positive=True) for s_ in d.free_symbols}
+        d = d.xreplace(pos).rewrite(sp.exp)
+        exps = list(d.atoms(sp.exp))
+        if not exps:
+            return sp.simplify(d)
+        args = [e.args[0] for e in exps]
+        base = None
+        for a in args:
+            rats = [sp.nsimplify(sp.simplify(b / a)) for b in args]
+            if all(r.is_Rational for r in rats):
+                base = a / sp.ilcm(*[r.q for r in rats])
+                break
+        if base is None:
+            return sp.simplify(d)
+        Zs = sp.Symbol("Z_exp", positive=True)
+        d = d.xreplace({e: Zs ** sp.nsimplify(sp.simplify(e.args[0] / base)) for e in exps})
+        d = sp.expand_log(sp.logcombine(sp.expand_log(d, force=True), force=True), force=True)
+        d = d.subs(sp.log(Zs), base)
+        d = sp.simplify(d)
+        for _ in range(2):
+            if d == 0:
+                break
+            d = sp.expand_log(d, force=True).subs(sp.log(Zs), base)
+            d = sp.simplify(d)
+        return d
+    except Exception:
+        return sp.Symbol("normalisation_failed")
